@@ -112,9 +112,10 @@ def run_stream(setting, nbars, bits, extra, table, table_next, case_of):
         return tuple(sorted((str(t), d) for t, d in desc if t <= bound))
 
     def file(tbl, key, digest, what):
+        key = hashlib.sha1(repr(key).encode()).digest()
         old = tbl.get(key)
         if old is None:
-            tbl[key] = (digest, case_of())
+            tbl[key] = (digest, case_of(), what)
         elif old[0] != digest:
             conflicts.append((what, old[1], case_of()))
 
@@ -158,32 +159,40 @@ def run_stream(setting, nbars, bits, extra, table, table_next, case_of):
     return conflicts
 
 
-def _work(unit):
-    setting, nbars, max_extra_val = unit
-    L = setting[0]
-    table, table_next = {}, {}
-    out = {"evaluations": 0, "violations": [], "classes": 0, "classes_multi": 0}
+def all_extras(nbars, max_extra_val):
     npos = 3 * (nbars - 1)
-    extras = [None] + [(pi, kind, val) for pi in range(npos) for kind in ("Q", "C") for val in range(max_extra_val)]
-    counts = {}
+    return [None] + [(pi, kind, val) for pi in range(npos) for kind in ("Q", "C") for val in range(max_extra_val)]
+
+
+def _work(unit):
+    """One work unit = one setting x a slice of the extra-event choices x ALL value assignments.
+    Streams of different units can share prefixes, so the (compacted) class tables are returned
+    and merged by the caller, which detects cross-unit conflicts."""
+    setting, nbars, extras = unit
+    table, table_next = {}, {}
+    out = {"evaluations": 0, "violations": [], "setting": setting}
     for extra in extras:
         for bits in range(1 << (2 * nbars)):
             cur = {"setting": list(setting), "nbars": nbars, "bits": bits, "extra": list(extra) if extra else None}
             conflicts = run_stream(setting, nbars, bits, extra, table, table_next, lambda: cur)
             out["evaluations"] += 1
             for what, first, second in conflicts:
-                if first is None:
-                    out["violations"].append(({"part": "core", "a": second, "b": second}, what, ("exc", setting[0], setting[3])))
-                else:
-                    out["violations"].append(({"part": "core", "a": first, "b": second},
-                                              "two streams that agree on every event stamped up to the cut produce different %s: %s vs %s"
-                                              % (what, first, second), (what.split(" ")[0], setting[0], setting[1], setting[3], setting[5])))
+                out["violations"].append(conflict_violation(what, first, second, setting))
             if len(out["violations"]) > 30:
                 break
         if len(out["violations"]) > 30:
             break
-    out["classes"] = len(table) + len(table_next)
+    out["table"] = table
+    out["table_next"] = table_next
     return out
+
+
+def conflict_violation(what, first, second, setting):
+    if first is None:
+        return ({"part": "core", "a": second, "b": second}, what, ("exc", setting[0], setting[3]))
+    return ({"part": "core", "a": first, "b": second},
+            "two streams that agree on every event stamped up to the cut produce different %s: %s vs %s" % (what, first, second),
+            (what.split(" ")[0], setting[0], setting[1], setting[3], setting[5]))
 
 
 # ---------------------------------------------------------------------------
@@ -302,13 +311,28 @@ def _xy_work(chunk):
 def run(tier, **kw):
     rep = Report("C02", tier, LEVEL)
     nbars = 4 if tier == "quick" else 5
-    units = [(s, nbars, 1 if tier == "quick" else 2) for s in settings(tier)]
+    sets = settings(tier)
+    extras = all_extras(nbars, 1 if tier == "quick" else 2)
+    nsl = 4 if tier == "quick" else 6
+    units = [(s, nbars, extras[i::nsl]) for s in sets for i in range(nsl)]
+    merged = {}
+    nclasses = 0
     for r in pmap(_work, units):
         rep.add("evaluations", r["evaluations"])
         rep.add("streams", r["evaluations"])
-        rep.add("prefix_classes", r["classes"])
         for case, msg, group in r["violations"]:
             rep.violation(case, msg, group=group)
+        for name in ("table", "table_next"):
+            tbl = merged.setdefault((r["setting"], name), {})
+            for k, v in r[name].items():
+                old = tbl.get(k)
+                if old is None:
+                    tbl[k] = v
+                elif old[0] != v[0]:
+                    rep.violation(*conflict_violation(v[2], old[1], v[1], r["setting"]))
+    nclasses = sum(len(t) for t in merged.values())
+    rep.set("prefix_classes", nclasses)
+    merged.clear()
     xs = [c + (tier,) for c in xy_cases(tier)]
     for r in pmap(_xy_work, shard(xs, 32)):
         rep.add("evaluations", r["evaluations"])
@@ -317,7 +341,7 @@ def run(tier, **kw):
         for case, msg, group in r["violations"]:
             rep.violation(case, msg, group=group)
     rep.cov["distinct_nontrivial"] = rep.cov.get("distinct_nontrivial", 0) + rep.cov.get("prefix_classes", 0)
-    rep.set("settings", len(units))
+    rep.set("settings", len(sets))
     rep.set("exhaustive", True)
     rep.set("rule", "core: for each of the settings (latency {0,30s} x delay {0,1} x fold {whole, late} x history {all, markov, warm-up} x action script x "
                     "{library features + recording feature, windowed State}) EVERY stream of %d bars x 2 contracts x 2 prices per bar (4^bars value "
